@@ -196,7 +196,7 @@ func nativeReplay(L *Loaded, h *HarnessSpec, rv *ReplayVector, file string) (rep
 	defer os.RemoveAll(work)
 	repl := map[string]string{}
 	for virt, src := range L.overlay {
-		if filepath.Dir(virt) != filepath.Join(L.repo, h.Pkg) {
+		if filepath.Dir(virt) != filepath.Clean(filepath.Join(L.repo, repoDirOf(h.Pkg))) {
 			continue
 		}
 		real := filepath.Join(work, filepath.Base(virt))
@@ -208,16 +208,16 @@ func nativeReplay(L *Loaded, h *HarnessSpec, rv *ReplayVector, file string) (rep
 	if err != nil {
 		return false, "error: " + err.Error(), ""
 	}
-	rtSrc := L.overlay[filepath.Join(L.repo, h.Pkg, "zz_verif_rt.go")]
+	rtSrc := L.overlay[filepath.Join(L.repo, repoDirOf(h.Pkg), "zz_verif_rt.go")]
 	pkgName := string(pkgClauseRe.FindSubmatch(rtSrc)[1])
 	tfile := filepath.Join(work, "zz_verif_replay_test.go")
 	os.WriteFile(tfile, []byte(strings.Replace(string(tsrc), "package PKGNAME", "package "+pkgName, 1)), 0o644)
-	repl[filepath.Join(L.repo, h.Pkg, "zz_verif_replay_test.go")] = tfile
+	repl[filepath.Join(L.repo, repoDirOf(h.Pkg), "zz_verif_replay_test.go")] = tfile
 	// extra native-only test files of the harness dir
 	ents, _ := os.ReadDir(filepath.Join(L.verifDir, "harness", h.Pkg))
 	for _, e := range ents {
 		if strings.HasSuffix(e.Name(), "_test.go") {
-			repl[filepath.Join(L.repo, h.Pkg, e.Name())] = filepath.Join(L.verifDir, "harness", h.Pkg, e.Name())
+			repl[filepath.Join(L.repo, repoDirOf(h.Pkg), e.Name())] = filepath.Join(L.verifDir, "harness", h.Pkg, e.Name())
 		}
 	}
 	ovb, _ := json.Marshal(map[string]any{"Replace": repl})
@@ -226,7 +226,7 @@ func nativeReplay(L *Loaded, h *HarnessSpec, rv *ReplayVector, file string) (rep
 
 	ctx, cancel := context.WithTimeout(context.Background(), 10*time.Minute)
 	defer cancel()
-	cmd := exec.CommandContext(ctx, "go", "test", "-tags", "verif", "-vet=off", "-count=1", "-timeout", "120s", "-overlay", ovf, "-run", "^TestVerifReplay$", "./"+h.Pkg)
+	cmd := exec.CommandContext(ctx, "go", "test", "-tags", "verif", "-vet=off", "-count=1", "-timeout", "120s", "-overlay", ovf, "-run", "^TestVerifReplay$", "./"+repoDirOf(h.Pkg))
 	cmd.Dir = L.repo
 	cmd.Env = append(defaultGoEnv(), "VERIF_REPLAY="+file)
 	var out bytes.Buffer
